@@ -185,6 +185,14 @@ def main(argv=None):
                                         backend=r["backend"], secs=r["secs"]))
             elif r["status"] == "failed":
                 failed.append((c, ov, r))
+            elif r["status"] == "candidate":
+                # not decided by the solver: counts as a violation only if the candidate input reproduces
+                rep = replayer.replay(c, ov, r, prop)
+                if rep.get("reproduced"):
+                    r["replay_done"] = rep
+                    failed.append((c, ov, r))
+                else:
+                    undecided.append("%s: %s (candidate did not reproduce)" % (r["name"], r["reason"]))
             else:
                 undecided.append("%s: %s" % (r["name"], r["reason"]))
     # extra (non-deductive, labelled) checks attached to the property
@@ -209,7 +217,7 @@ def main(argv=None):
         if group in seen_groups:
             continue
         seen_groups.add(group)
-        rep = replayer.replay(c, ov, r, prop)
+        rep = r.get("replay_done") or replayer.replay(c, ov, r, prop)
         path = os.path.join(ROOT, "replays", prop, hashlib.sha1(r["name"].encode()).hexdigest()[:12] + ".json")
         with open(path, "w") as f:
             json.dump(dict(property=prop, obligation=r["name"], overload=ov, model=r.get("model"),
